@@ -728,15 +728,54 @@ theorem fmapE_eq_spec {V E} (zeros : List V) (g : Stage V E) (f : List V → Lis
   cases h : g.run [] with
   | mk v err => cases err <;> simp [errors, inputs, finalOut, indexFrom, h]
 
-theorem joinE_eq_spec {V E} (zeros : List V) (f : Stage V E) (err : Option E) :
-    joinE zeros f err = joinESpec zeros f err := by
-  cases err <;> simp [joinE, joinESpec]
+/-- join against the property text: right unless `f` itself fails AND returns something else than zero
+values beside its error (or join is repaired) -/
+theorem joinEC_eq_spec {V E} (pass : Bool) (zeros : List V) (f : Stage V E) (err : Option E)
+    (h : pass = true ∨ (f.run []).2 = none ∨ (f.run []).1 = zeros) :
+    joinEC pass zeros f err = joinESpec zeros f err := by
+  cases err with
+  | some e => cases pass <;> simp [joinEC, zeroOnError, joinE, joinESpec]
+  | none =>
+    cases hf : f.run [] with
+    | mk r e =>
+      rw [hf] at h
+      cases e with
+      | none => cases pass <;> simp [joinEC, zeroOnError, joinE, joinESpec, hf]
+      | some e' =>
+        cases pass with
+        | true => simp [joinEC, zeroOnError, joinE, joinESpec, hf]
+        | false =>
+          rcases h with h | h | h
+          · cases h
+          · cases h
+          · simp only at h
+            simp [joinEC, zeroOnError, joinE, joinESpec, hf, h]
 
-theorem bindE_eq_spec {V E} (zeros : List V) (g f : Stage V E) :
-    bindE zeros g f = bindESpec zeros g f := by
-  unfold bindE bindESpec
-  cases h : g.run [] with
-  | mk v err => cases err <;> simp
+theorem bindEC_eq_spec {V E} (pass : Bool) (zeros : List V) (g f : Stage V E)
+    (h : pass = true ∨ (f.run (g.run []).1).2 = none ∨ (f.run (g.run []).1).1 = zeros) :
+    bindEC pass zeros g f = bindESpec zeros g f := by
+  unfold bindEC bindE bindESpec zeroOnError
+  cases hg : g.run [] with
+  | mk v err =>
+    rw [hg] at h
+    cases err with
+    | some e => cases pass <;> simp
+    | none =>
+      simp only at h
+      cases hf : f.run v with
+      | mk r e =>
+        rw [hf] at h
+        cases e with
+        | none => cases pass <;> simp [hf]
+        | some e' =>
+          cases pass with
+          | true => simp [hf]
+          | false =>
+            rcases h with h | h | h
+            · cases h
+            · cases h
+            · simp only at h
+              simp [hf, h]
 
 theorem fmapEFn_eq_spec {V E} (g f : Stage V E) : fmapEFn g f = fmapEFnSpec g f := by
   unfold fmapEFn fmapEFnSpec
